@@ -18,3 +18,6 @@ impl Ser for u16 {
     #[verifier::external_body] fn serialize(&self, serializer: &mut Serializer) -> (r: Result<(), CborError>) { unimplemented!() }
 }
 pub type TransactionIndex = u32;
+pub type Slot32 = u32;
+impl From<u32> for BigNum { #[verifier::external_body] fn from(x: u32) -> (r: BigNum) ensures r.0 == x { unimplemented!() } }
+impl vstd::std_specs::convert::FromSpecImpl<u32> for BigNum { open spec fn obeys_from_spec() -> bool { true } open spec fn from_spec(v: u32) -> BigNum { BigNum(v as u64) } }
